@@ -121,7 +121,7 @@ T = {
 LEVEL = {'C18': 'exploration', 'C20': 'fault_enumeration'}
 
 # properties whose check has been accepted (quiet on the unchanged tree, mutants killed)
-READY = ['C%02d' % i for i in range(1, 20)]
+READY = ['C%02d' % i for i in range(1, 21)]
 
 
 def main():
